@@ -838,6 +838,20 @@ func ruleListCover(p *Prog, r *Result) {
 		sort.Strings(missing)
 		r.add(len(missing) == 0, key, pos, fmt.Sprintf("%s handles %v; missing %v", what, keysOf(have), missing))
 	}
+	// list(): the README documents int, str and float element types
+	for _, row := range rows {
+		if row.Key != "list" || row.Body == nil {
+			continue
+		}
+		k, _ := p.bodyKinds(row.Body)
+		var missing []string
+		for _, want := range []string{"[]int64", "[]float64", "[]string"} {
+			if !k[want] {
+				missing = append(missing, want)
+			}
+		}
+		r.add(len(missing) == 0, "list|element-kinds", p.Pos(row.Body.Pos()), fmt.Sprintf("list() builds lists of the documented element types int, float and str; it can return %v, missing %v", keysOf(k), missing))
+	}
 	// len(): the function reached from the len bodies that type-switches on its parameter
 	for _, body := range []*ssa.Function{lenBody, lenVec} {
 		if body == nil {
